@@ -104,6 +104,9 @@ TIMEOUT_IS_VIOLATION = False
 # plants an assignment to 10**20 variables, one draw each, before it runs
 # out of memory and says so)
 DRAW_BUDGET_IS_VIOLATION = False
+# address space of a simulated process (numbers like 10**20 are part of
+# the workload: the sooner the machine says no, the better)
+MEM_GB = 2
 
 HELP_FLAGS = ("-h", "--help", "-V", "--version", "--tutorial",
               "--help-graph", "--help-bipartite", "--help-dag")
